@@ -81,6 +81,8 @@ fn c09_jobs(thorough: bool) -> Vec<Job> {
                     dup_add: dup,
                     initial_spelled: vec![],
                     case_variants: dup,
+                    no_admin: false,
+                    clear_admin: false,
                     hmax: H0 + blocks - 1,
                 },
                 memo: Default::default(),
@@ -107,6 +109,34 @@ fn c09_jobs(thorough: bool) -> Vec<Job> {
     // repeated initial members: instantiation is expected to be refused; if it is not, the invariants decide
     out.push(g("C09/group/init[A:1,A:2] (repeated member)", ab(), 2, vec![0, 1], vec![(0, 1), (0, 2)], 1, false));
     out.push(g("C09/group/init[A:1,B:1,A:1] (repeated member)", ab(), 2, vec![0, 1], vec![(0, 1), (1, 1), (0, 1)], 1, false));
+    // the admin gives the group up at any point of the history (UpdateAdmin{None}); a group that never
+    // had an admin: the history before and at the instantiation height must still read None / 0
+    for (nm, no_admin, initial, blocks) in [
+        ("C09/group/init[A:1]/members{A,B}/weights{0,2}/admin may be cleared/3 blocks", false, vec![(0u8, 1u64)], 3u64),
+        ("C09/group/no admin/init[A:1,B:2]/members{A,B}/weights{0,1}/3 blocks", true, vec![(0, 1), (1, 2)], 3),
+    ] {
+        out.push(Job::G9(
+            c09::GroupHist {
+                cfg: c09::GroupCfg {
+                    name: nm.to_string(),
+                    names: ab(),
+                    n_members: 2,
+                    weights: if no_admin { vec![0, 1] } else { vec![0, 2] },
+                    max_add: if no_admin { 1 } else { 2 },
+                    max_remove: if no_admin { 1 } else { 2 },
+                    initial,
+                    dup_add: false,
+                    initial_spelled: vec![],
+                    case_variants: false,
+                    no_admin,
+                    clear_admin: !no_admin,
+                    hmax: H0 + blocks - 1,
+                },
+                memo: Default::default(),
+            },
+            None,
+        ));
+    }
     // one account named in lower and in UPPER case bech32 spelling at instantiation
     for (nm, list) in [
         ("C09/group/init[A:3, A in upper case:4] (one account, two spellings)", vec![(0u8, 3u64, false), (0, 4, true)]),
@@ -125,6 +155,8 @@ fn c09_jobs(thorough: bool) -> Vec<Job> {
                     dup_add: false,
                     initial_spelled: list,
                     case_variants: true,
+                    no_admin: false,
+                    clear_admin: false,
                     hmax: H0,
                 },
                 memo: Default::default(),
@@ -152,6 +184,8 @@ fn c09_jobs(thorough: bool) -> Vec<Job> {
                     dup_add: false,
                     initial_spelled: vec![],
                     case_variants: false,
+                    no_admin: false,
+                    clear_admin: false,
                     hmax: H0 + 1,
                 },
                 memo: Default::default(),
@@ -466,6 +500,31 @@ fn c14_jobs(thorough: bool) -> Vec<Job> {
             Some(if thorough { 4 } else { 3 }),
         ));
     }
+    // one UpdateMembers naming 12 (and 11) addresses at once, two hooks
+    {
+        let labels = big_group_labels();
+        let members: Vec<&'static str> = labels[..12].to_vec();
+        let all: Vec<(u8, u64)> = (0..12u8).map(|i| (i, 1)).collect();
+        let reweigh: Vec<(u8, u64)> = (0..11u8).map(|i| (i, 2)).collect();
+        out.push(Job::G14(
+            c14::GroupAdmin {
+                cfg: c14::GroupCfg {
+                    name: "C14/group/admin AD/init[]/updates naming 12 and 11 addresses at once/2 hooks".to_string(),
+                    admin: Some(0),
+                    initial: vec![],
+                    add_lists: vec![vec![], all, reweigh, vec![(0, 3)]],
+                    remove_lists: vec![vec![], (0..12u8).collect(), vec![11]],
+                    full_callers: vec![0],
+                    callers: vec![0],
+                    members,
+                    wasm_admin: false,
+                    hooks: hk(2),
+                    hmax: H0,
+                },
+            },
+            Some(if thorough { 5 } else { 4 }),
+        ));
+    }
     let s = |admin: Option<u8>, tpw: u128, mb: u128, funds: Vec<u128>, amounts: Vec<u128>, hooks: Vec<&'static str>, blocks: u64, cw20: bool| {
         // the default hook addresses also try the admin/hook calls themselves
         let callers: Vec<u8> = if hooks.iter().all(|h| c14::HOOKS.contains(h)) { vec![0, 1, 2, 5, 6, 7] } else { vec![0, 1, 2] };
@@ -522,7 +581,7 @@ fn jobs(prop: &str, thorough: bool) -> Vec<Job> {
 fn describe(prop: &str) -> (&'static str, &'static str, &'static str) {
     match prop {
         "C09" => (
-            "cw4-group: UpdateMembers with every add list over the member alphabet x weight alphabet of size <= 2 combined with every remove list of size <= 2 (overlaps, re-adds, re-weights, removal of non-members, zero weights, empty update, a repeated address in add and in remove, weights 2^64-1), any number of updates per block, AdvanceBlock up to the block bound; initial lists [], [A:1], [A:0], [A:1,B:2] lists with a repeated member and lists naming one account in lower and UPPER case spelling; updates naming a member in UPPER case; a group of 33 members (more than one listing page). cw4-stake (kernel + bank, native denom): Bond/Unbond of 1..3 tokens by two users, Claim, AdvanceBlock; one edge configuration with two users bonding 1e19 each (sum of weights above 2^64).",
+            "cw4-group: UpdateMembers with every add list over the member alphabet x weight alphabet of size <= 2 combined with every remove list of size <= 2 (overlaps, re-adds, re-weights, removal of non-members, zero weights, empty update, a repeated address in add and in remove, weights 2^64-1), any number of updates per block, AdvanceBlock up to the block bound; initial lists [], [A:1], [A:0], [A:1,B:2] lists with a repeated member and lists naming one account in lower and UPPER case spelling; updates naming a member in UPPER case; UpdateAdmin{None} at any point of the history and a group instantiated without admin; a group of 33 members (more than one listing page). cw4-stake (kernel + bank, native denom): Bond/Unbond of 1..3 tokens by two users, Claim, AdvanceBlock; one edge configuration with two users bonding 1e19 each (sum of weights above 2^64).",
             "reference = membership at the START of every block since instantiation. After every step, for every probe address (members and a never-member) and every height h in {0, H0-1, H0 .. now+2}: Member{addr,at_height:h} == reference (None up to and including the instantiation height, unaffected by changes in block h or later, current value for future heights); Member{addr} == current; cw4-group TotalWeight{at_height:h} likewise; TotalWeight == sum of ListMembers paged by 2; listing == true membership; ListMembers{start_after: X} for every probe address X (member or not), in one page and paged by 1, == the true members sorting after X; raw cw4::TOTAL_KEY and cw4::member_key(addr) decode to the smart-query values. For cw4-stake the history is built from the weights the contract reported when they were current (whether they are the right function of the stake is C10).",
             "the clock is capped (blocks per configuration in its name) and weights are finite, so every configuration runs to a FIXPOINT: all histories over the alphabet within the block bound, any number of updates per block",
         ),
@@ -532,7 +591,7 @@ fn describe(prop: &str) -> (&'static str, &'static str, &'static str) {
             "closed configurations (finite funds, capped clock, zero-unbond offered once per pending zero claim) run to FIXPOINT; edge configurations to the stated depth",
         ),
         "C14" => (
-            "cw4-group: UpdateAdmin{None|AD|AD2}, AddHook/RemoveHook{H1,H2(,H3)}, UpdateMembers (every add list of size <= 2 over members x weights, remove lists incl. overlap with add, a non-member, a repeated address; re-weight to the same value) by the admin, the other admin candidate, a stranger and (in two configurations) the members A and B themselves, incl. removing themselves, the hook addresses H1, H2 themselves and the chain-level (wasm) admin W of the contract; a group of 33 members (more than one listing page) whose last members in address order are re-weighted and removed; hook addresses that are the admins themselves; AdvanceBlock. cw4-stake: the same admin/hook calls (also sent by the hook addresses) plus Bond/Unbond by two users; native denom (response messages observed, not dispatched) and one configuration with a real cw20-base stake token where Send{Bond} -> Receive and every hook message are dispatched by the kernel to sink contracts and the notifications are read from the dispatch trace.",
+            "cw4-group: UpdateAdmin{None|AD|AD2}, AddHook/RemoveHook{H1,H2(,H3)}, UpdateMembers (every add list of size <= 2 over members x weights, remove lists incl. overlap with add, a non-member, a repeated address; re-weight to the same value) by the admin, the other admin candidate, a stranger and (in two configurations) the members A and B themselves, incl. removing themselves, the hook addresses H1, H2 themselves and the chain-level (wasm) admin W of the contract; single updates naming 12 addresses; a group of 33 members (more than one listing page) whose last members in address order are re-weighted and removed; hook addresses that are the admins themselves; AdvanceBlock. cw4-stake: the same admin/hook calls (also sent by the hook addresses) plus Bond/Unbond by two users; native denom (response messages observed, not dispatched) and one configuration with a real cw20-base stake token where Send{Bond} -> Receive and every hook message are dispatched by the kernel to sink contracts and the notifications are read from the dispatch trace.",
             "reference {admin, hooks, members} stepped on accepted calls of the reference admin. A call by anyone else, and every call once the admin is None, leaves the Admin, Hooks and (cw4-group) ListMembers queries unchanged; after an admin's call they equal the reference. Every accepted call whose effect changes some weight returns exactly one member_changed_hook message per hook registered at that time; every notification goes to a registered hook, carries no funds, names only addresses the call listed (the bonding sender for cw4-stake), no entry has old None and new None; folding its diffs per address in order: first old == weight before the call, each new == next old, last new == weight after the call; every address whose weight changed has an entry. cw4-stake: a bond/unbond that changes no weight sends no notification.",
             "all configurations run to FIXPOINT (single block or two blocks; finite weights, hooks, admins, funds)",
         ),
